@@ -136,6 +136,7 @@ fn run_write_plan(p: &Value, tr: &mut Tracer) {
         script.set_wsched(wsched_of(&w));
         let base = script.0.borrow().accepted_total;
         script.set_wfail_at(w.get("failat").and_then(|x| x.as_u64()).map(|k| base + k as usize));
+        script.set_wfail_kind(w.get("failkind").and_then(|x| x.as_str()).unwrap_or("brokenpipe"));
         let r = do_write(&script, &mut l, payload.clone());
         tr.event(json!({"ev": "write", "payload": payload, "res": r.res, "ek": r.ek, "accepted": r.accepted, "calls": r.calls, "failed": r.failed, "zero": r.zero}));
         if r.res != "ok" { break; }
